@@ -37,6 +37,9 @@ SCOPE_PROGS = [
     'x: int = 5\ny: "ann" = x\ndef f(p: T1, *args: T2, **kw: T3) -> T4:\n    z: local_ann = p\n    return z\n',
     'def outer():\n    v = 1\n    class C:\n        v = v + 1\n        def m(self):\n            return v\n    return C\n',
     'lambda: (yield)\nl2 = lambda *a, **k: [a for a in k if (q := a)]\n',
+    'import a.b.c\nimport x.y as xy, z.w.v.u\nfrom p.q.r import s\ndef f():\n    import m.n.o\n    return a, xy, z, s, m\n',
+    'def f():\n    g = lambda p=pdef, *, k1=kdef1, k2=kdef2, **kw: (p, k1, k2, free)\n    h = lambda *, only=konly: only\n    return g, h\n',
+    'class C(B1, B2, metaclass=Meta, **kwbase):\n    def m(self, a: Ann1 = Dflt1, /, b=Dflt2, *va: Ann2, c: Ann3 = Dflt3, **kw: Ann4) -> Ret: return a\n',
 ]
 
 
